@@ -63,7 +63,7 @@ static void run_vec(Ctx& ctx, const Item& it, bool thorough) {
   std::vector<uint64_t> strides = {N, N + 3};
   std::set<std::string> seen;
   for (int al : aliases)
-    for (uint64_t rs = 0; rs <= 3; ++rs) for (uint64_t as = 0; as <= 3; ++as) for (uint64_t bs = 0; bs <= (op.nin >= 2 ? 3u : 0u); ++bs)
+    for (uint64_t rs : std::vector<uint64_t>{0, 1, 2, 3, 7}) for (uint64_t as : std::vector<uint64_t>{0, 1, 2, 3, 7}) for (uint64_t bs : (op.nin >= 2 ? std::vector<uint64_t>{0, 1, 2, 3, 7} : std::vector<uint64_t>{0}))
       for (uint64_t sl : strides) for (uint64_t osl : strides) for (int64_t p : ps) {
         VecShape s; s.N = N; s.rs = rs; s.as = as; s.bs = bs; s.p = p; s.alias = al;
         // aliased operands share `sl`; the other operand uses `osl`
@@ -87,7 +87,7 @@ static void run_norm(Ctx& ctx, const Item& it) {
   MODULE* mod = get_module(N, FFT64, it.cfg);
   for (int variant = 0; variant < 3; ++variant)
     for (uint64_t k : {1, 2, 7, 19, 31, 52, 62})
-      for (uint64_t rs = 0; rs <= 3; ++rs) for (uint64_t as = 0; as <= 3; ++as)
+      for (uint64_t rs : {0, 1, 2, 3, 9}) for (uint64_t as : {0, 1, 2, 3, 9})
         for (uint64_t sl : {N, N + 3}) for (int ds = 0; ds < 2; ++ds) {
           NormShape s; s.N = N; s.k = k; s.rs = rs; s.as = as; s.variant = variant; s.dataset = ds; s.alias = 1;
           s.rsl = s.asl = (variant == 0 ? sl : N);
@@ -102,7 +102,7 @@ static void run_idft(Ctx& ctx, const Item& it) {
   const uint64_t N = it.N;
   MODULE_TYPE t = it.mtype == 0 ? FFT64 : NTT120;
   MODULE* mod = get_module(N, t, it.cfg);
-  for (uint64_t rs = 0; rs <= 3; ++rs) for (uint64_t as = 0; as <= 3; ++as) {
+  for (uint64_t rs : {0, 1, 2, 3, 7}) for (uint64_t as : {0, 1, 2, 3, 7}) {
     DftShape s; s.N = N; s.rs = rs; s.as = as; s.variant = 1; s.alias = 1;
     DftShape sp = s; sp.alias = 0;
     alias_pair(ctx, gen_dft(mod, t, s, it.cfg.name), gen_dft(mod, t, sp, it.cfg.name), true);
